@@ -21,7 +21,23 @@ package difficulty
 //@ trusted func (*math/big.Int).Sign
 //@   frame nothing
 //@   ensures (result > 0) == (x.bigval > 0) && (result < 0) == (x.bigval < 0)
-//@ pure func CompactToBig
+// the compact form: sign bit 0x00800000, 23-bit mantissa, exponent byte = number of base-256 digits;
+// value = mantissa * 256^(exponent-3) (mantissa shifted right for exponent <= 3). pow2(n) = 2^n (abstract).
+//@ smt (declare-fun pow2 (Int) Int)
+//@ trusted func (*math/big.Int).Lsh
+//@   frame z.bigval
+//@   ensures result == z && z.bigval == old(x.bigval) * pow2(n)
+//@ trusted func (*math/big.Int).Neg
+//@   frame z.bigval
+//@   ensures result == z && z.bigval == 0 - old(x.bigval)
+//@ func CompactToBig [C20]
+//@   opt safety=assumed
+//@   frame allocates
+//@   ensures result != nil
+//@   ensures compact / 16777216 > 3 && (compact / 8388608) % 2 == 0 ==> result.bigval == (compact % 8388608) * pow2(8 * (compact / 16777216 - 3))
+//@   ensures compact / 16777216 > 3 && (compact / 8388608) % 2 == 1 ==> result.bigval == 0 - (compact % 8388608) * pow2(8 * (compact / 16777216 - 3))
+// (exponent <= 3, where the mantissa is shifted right by a variable count, is not covered: the engine does not
+//  model variable shifts exactly)
 
 // work(target) = 2^256 / (target + 1) for a positive target, 0 otherwise
 //@ func CalcWork [C20]
